@@ -56,7 +56,8 @@ class Wchar(str, BaseType):
         if count != EOF:
             count *= 2
 
-        data = stream.read(-1 if count == EOF else count)
+        # (a count no stream can hold, e.g. from a corrupted length field, is a premature end like any other)
+        data = stream.read(-1 if count == EOF else min(count, sys.maxsize))
         if count == EOF and len(data) % 2:
             raise EOFError(f"Read {len(data)} bytes, but expected {len(data) - 1}")
         if count != EOF and len(data) != count:
